@@ -239,7 +239,7 @@ func jobsFor(t *testing.T, prop, tier string, seed uint64) []job {
 	}
 	js = append(js, ctl)
 	switch prop {
-	case "C17", "C18", "C19", "C20":
+	case "C07", "C17", "C18", "C19", "C20":
 		for k := 0; k < 3; k++ {
 			ps := seed*4 + uint64(k)
 			pj := job{driver: "provider", seed: ps}
